@@ -393,3 +393,36 @@ pub proof fn lemma_resid_set(pr: PartialResponse, cp: Seq<PolicyComponents<'_>>,
         assert(s[i].spec_id() == id && s[i].spec_effect() == eff);
     }
 }
+/// `all_residuals`: every listed policy stands for a bucket entry of its effect, and every bucket entry is listed
+pub open spec fn pols_has(s: Seq<Policy>, id: PolicyID, eff: Effect) -> bool { exists|i: int| 0 <= i < s.len() && (#[trigger] s[i]).spec_id() == id && s[i].spec_effect() == eff }
+pub open spec fn all_listed(pr: PartialResponse, s: Seq<Policy>) -> bool {
+    (forall|i: int| 0 <= i < s.len() ==> in_buckets(pr, (#[trigger] s[i]).spec_id(), s[i].spec_effect()))
+    && (forall|id: PolicyID, eff: Effect| in_buckets(pr, id, eff) ==> #[trigger] pols_has(s, id, eff))
+}
+pub open spec fn eff_id_from(items: Seq<Policy>, cs: Seq<PolicyComponents<'_>>) -> bool {
+    items.len() == cs.len() && forall|i: int| 0 <= i < items.len() ==> (#[trigger] items[i]).spec_effect() == cs[i].0 && items[i].spec_id() == *cs[i].1
+}
+pub proof fn lemma_all_listed(pr: PartialResponse, cp: Seq<PolicyComponents<'_>>, cf: Seq<PolicyComponents<'_>>, items: Seq<Policy>)
+    requires comps_ok(pr, cp, Effect::Permit), comps_ok(pr, cf, Effect::Forbid), eff_id_from(items, cp + cf),
+    ensures all_listed(pr, items)
+{
+    let cs = cp + cf;
+    assert forall|i: int| 0 <= i < items.len() implies in_buckets(pr, (#[trigger] items[i]).spec_id(), items[i].spec_effect()) by {
+        if i < cp.len() { assert(cs[i] == cp[i]); assert(comp_ok(pr, cp[i], Effect::Permit)); }
+        else { assert(cs[i] == cf[i - cp.len()]); assert(comp_ok(pr, cf[i - cp.len()], Effect::Forbid)); }
+    }
+    assert forall|id: PolicyID, eff: Effect| in_buckets(pr, id, eff) implies #[trigger] pols_has(items, id, eff) by {
+        let j: int = if eff == Effect::Permit {
+            assert(comp_has(cp, id));
+            let k = choose|k: int| 0 <= k < cp.len() && *(#[trigger] cp[k]).1 == id;
+            assert(comp_ok(pr, cp[k], Effect::Permit)); assert(cs[k] == cp[k]);
+            k
+        } else {
+            assert(comp_has(cf, id));
+            let k = choose|k: int| 0 <= k < cf.len() && *(#[trigger] cf[k]).1 == id;
+            assert(comp_ok(pr, cf[k], Effect::Forbid)); assert(cs[cp.len() + k] == cf[k]);
+            cp.len() + k
+        };
+        assert(items[j].spec_id() == id && items[j].spec_effect() == eff);
+    }
+}
